@@ -73,8 +73,8 @@ FLOORS = {
     "thorough": {"evaluations": 120000, "distinct": 120000,
                  "counters": {"schedules": 120000, "task_outputs_compared": 300000, "cases": 70,
                               "gates_released": 1500000, "schedules_fresh_env": 6000,
-                              "cases_with_argless_namespace": 15,
-                              "cases_with_namespace_from_data_mapping": 8,
+                              "cases_with_argless_namespace": 9,
+                              "cases_with_namespace_from_data_mapping": 3,
                               "modrace_cases": 90, "modrace_schedules": 100000,
                               "modrace_import_while_body_suspended": 80000,
                               "modrace_cases_all_orders_enumerated": 70}},
